@@ -58,7 +58,8 @@ def map_args(t, f):
         rec["actuals"] = [f(a) for a in rec["actuals"]]
         rec["akw"] = {k: f(v) for k, v in rec["akw"].items()}
         return ("leaf", rec)
-    return (t[0], map_args(t[1], f), map_args(t[2], f))
+    left = map_args(t[1], f)
+    return (t[0], left, left if t[2] is t[1] else map_args(t[2], f))      # (sharing of the two operands is kept)
 
 
 def deep_map(v, f):
